@@ -22,6 +22,24 @@ PROPS = {
     ),
 }
 
+PROPS["C16"] = dict(
+    pkg="c16", level="exploration", design_ref="DESIGN.md section 3, C16",
+    technique="exhaustive enumeration of outcome scripts x configurations + rapid multi-call histories against a statement-level retry/failover/fan-out model",
+    level_text=("The single-call space (scripts x retry x idempotent flags x overrides x servers x modes) and the forking/broadcast "
+                "space (outcome assignments x completion orders, forced by the harness) are enumerated completely; rapid adds "
+                "multi-call histories on one cluster instance because the failover rotation outlives a call. Exploration with an "
+                "exhaustive core; bounds stated in the evidence."),
+    level_note="Retry intervals are set to zero; the scripted downstream handler stands for the servers; histories beyond the generated length are not covered.",
+    rule=("single: every script in {success,error,panic}^(retry+2) x retry x idempotent (plugin, per-call) x retry override x servers x mode on a fresh "
+          "instance; histories: rapid-drawn sequences of 1..6 calls on one instance; fan: every outcome assignment x completion order for "
+          "forking/broadcast. Non-trivial = the first attempt fails (single/histories, and for histories more than one call) or some server fails (fan); "
+          "distinct by full case text."),
+    assumptions=["the scripted IO handler installed inside the cluster plugin is an adequate stand-in for remote servers",
+                 "completion order in forking is forced by releasing held handlers one at a time"],
+    quick=dict(shards=4, timeout=300),
+    thorough=dict(shards=16, timeout=1500),
+)
+
 # properties not claimed yet (kept current as checks land)
 _ALL = ["C%02d" % i for i in range(1, 21)]
 NOT_APPLICABLE = [dict(property_id=p, reason="check not built yet in this revision (planned in DESIGN.md section 3); not a limit of the technique")
